@@ -1,8 +1,27 @@
 (* Outline/OutlineProofs.v — proofs about M2: the stepper machine of OutlineModel.v executes an
-   outline exactly as the structured program of OutlineSem.v. *)
-From Coq Require Import List ZArith String Bool Lia.
+   outline exactly as the structured program of OutlineSem.v.
+
+   Theorems: exec_deterministic, run_outline_sound, run_outline_complete (statements fixed).
+
+   Proof architecture.  [drive n last i sp st] iterates [step_instr i sp] on a (sub-)stepper in
+   isolation with the glue of _do_step / run_chain (reset of the awaitables, the ToContext barrier
+   unless the whole outline is finished, stop on a returned value / return_ / exception) until
+   the stepper reports finished; it returns the remaining fuel, the final reference state and the
+   outcome.  [drive_wrap] is the single compositionality fact: a parent whose step is "step the
+   child, then post-process" (block / if with a child / while with a child) is driven by driving
+   the child and then continuing the parent — as an exact equation, so it serves both directions.
+   [drive_while_head], [drive_if_*] are the equations for the steps that evaluate predicates.
+   Soundness ([sound_main]) is by strong induction on the fuel and structural induction on the
+   outline; completeness ([complete_main]) by induction on the derivation; [run_chain_drive]
+   identifies run_chain with the top-level drive ([last] = true). *)
+From Coq Require Import List ZArith String Bool Lia Arith.
 From Plumpy Require Import Val OutlineModel OutlineSem.
 Import ListNotations.
+
+Scheme instr_mut := Induction for instr Sort Prop
+with block_mut := Induction for block Sort Prop
+with branches_mut := Induction for branches Sort Prop.
+Combined Scheme instr_mutind from instr_mut, block_mut, branches_mut.
 
 Section Proofs.
   Variable W : Type.
@@ -15,17 +34,1107 @@ Section Proofs.
   Notation run_outline := (run_outline W A stepf predf assign).
   Notation chain_result := (chain_result A).
 
-  (* TO BE PROVED (statements fixed):
+  Notation exec_block := (exec_block W A stepf predf assign).
+  Notation exec_branches := (exec_branches W A stepf predf assign).
+  Notation pred_eval := (pred_eval W predf).
+  Notation ist := (ist W A).
+  Notation rst := (rst W).
+  Notation outT := (out A).
+  Notation mk_ist := (mk_ist W A).
+  Notation iw_ := (iw W A).
+  Notation icalls_ := (icalls W A).
+  Notation iaw_ := (iaw W A).
+  Notation step_instr := (step_instr W A stepf predf).
+  Notation step_nth := (step_nth W A stepf predf).
+  Notation step_branch := (step_branch W A stepf predf).
+  Notation block_step := (block_step W A).
+  Notation call_step := (call_step W A stepf).
+  Notation call_pred := (call_pred W A predf).
+  Notation scan_branches := (scan_branches W A predf).
+  Notation do_step := (do_step W A stepf predf).
+  Notation run_chain := (run_chain W A stepf predf assign).
+  Notation barrier := (barrier W A assign).
+  Notation rv_regs := (rv_regs A).
+  Notation is_normal := (is_normal A).
+  Notation ONormal := (ONormal A).
+  Notation OStop := (OStop A).
+  Notation OErr := (OErr A).
+  Notation code_rv := (code_rv A).
+
+  (* ------------------------------------------------------------------ *)
+  (* Determinism of the reference semantics                             *)
+  (* ------------------------------------------------------------------ *)
+
+  Lemma pred_eval_fun : forall p st st1 r1 st2 r2,
+    pred_eval p st st1 r1 -> pred_eval p st st2 r2 -> st1 = st2 /\ r1 = r2.
+  Proof.
+    intros p st st1 r1 st2 r2 H1 H2.
+    inversion H1 as [st0 | n w tr w' r Hp]; subst.
+    - inversion H2; subst; auto.
+    - inversion H2 as [ | n' w0 tr0 w'0 r0 Hp']; subst.
+      rewrite Hp in Hp'. inversion Hp'; subst; auto.
+  Qed.
+
+  Ltac det_tac :=
+    repeat match goal with
+    | Ha : stepf ?f ?w = _, Hb : stepf ?f ?w = _ |- _ =>
+        rewrite Ha in Hb; inversion Hb; subst; clear Hb
+    | Ha : pred_eval ?p ?st _ _, Hb : pred_eval ?p ?st _ _ |- _ =>
+        let E1 := fresh "E" in let E2 := fresh "E" in
+        destruct (pred_eval_fun _ _ _ _ _ _ Ha Hb) as [E1 E2]; clear Hb;
+        try discriminate E2; subst
+    | IH : (forall st2 o2, exec_instr _ _ ?st st2 o2 -> _), Hb : exec_instr _ _ ?st _ _ |- _ =>
+        let E1 := fresh "E" in let E2 := fresh "E" in
+        destruct (IH _ _ Hb) as [E1 E2]; clear Hb; subst
+    | IH : (forall st2 o2, exec_block _ _ ?st st2 o2 -> _), Hb : exec_block _ _ ?st _ _ |- _ =>
+        let E1 := fresh "E" in let E2 := fresh "E" in
+        destruct (IH _ _ Hb) as [E1 E2]; clear Hb; subst
+    | IH : (forall st2 o2, exec_branches _ _ ?st st2 o2 -> _), Hb : exec_branches _ _ ?st _ _ |- _ =>
+        let E1 := fresh "E" in let E2 := fresh "E" in
+        destruct (IH _ _ Hb) as [E1 E2]; clear Hb; subst
+    end.
+
+  Lemma exec_det_mut :
+    (forall last i st st1 o1 (H : exec_instr last i st st1 o1),
+        forall st2 o2, exec_instr last i st st2 o2 -> st1 = st2 /\ o1 = o2) /\
+    (forall last b st st1 o1 (H : exec_block last b st st1 o1),
+        forall st2 o2, exec_block last b st st2 o2 -> st1 = st2 /\ o1 = o2) /\
+    (forall last brs st st1 o1 (H : exec_branches last brs st st1 o1),
+        forall st2 o2, exec_branches last brs st st2 o2 -> st1 = st2 /\ o1 = o2).
+  Proof.
+    apply exec_mutind; intros;
+      match goal with
+      | H2 : exec_instr _ _ _ ?s ?o |- _ = ?s /\ _ = ?o => inversion H2; subst; clear H2
+      | H2 : exec_block _ _ _ ?s ?o |- _ = ?s /\ _ = ?o => inversion H2; subst; clear H2
+      | H2 : exec_branches _ _ _ ?s ?o |- _ = ?s /\ _ = ?o => inversion H2; subst; clear H2
+      end; det_tac; auto;
+      try match goal with
+          | Hn : forall v, ROther ?x <> ROther v |- _ => exfalso; exact (Hn _ eq_refl)
+          end;
+      try discriminate; try (split; congruence).
+  Qed.
 
   Theorem exec_deterministic : forall last o st st1 o1 st2 o2,
     exec_instr last o st st1 o1 -> exec_instr last o st st2 o2 -> st1 = st2 /\ o1 = o2.
+  Proof.
+    intros last o st st1 o1 st2 o2 H1 H2.
+    exact (proj1 exec_det_mut last o st st1 o1 H1 st2 o2 H2).
+  Qed.
+
+
+  (* ------------------------------------------------------------------ *)
+  (* Driving a (sub-)stepper in isolation                               *)
+  (* ------------------------------------------------------------------ *)
+
+  (* interpreter state at the start of a _do_step: self._awaitables = {} *)
+  Definition mk (st : rst) : ist := mk_ist (fst st) (snd st) [].
+  Definition st_of (s : ist) : rst := (iw_ s, icalls_ s).
+  (* the ToContext barrier after a step that handed back [v] *)
+  Definition await (s1 : ist) (v : rv A) : rst :=
+    (barrier (iaw_ s1 ++ rv_regs v) (iw_ s1), icalls_ s1).
+
+  Lemma st_of_mk : forall st, st_of (mk st) = st.
+  Proof. intros [w tr]; reflexivity. Qed.
+
+  Lemma mk_st_of : forall s, iaw_ s = [] -> mk (st_of s) = s.
+  Proof. intros [w tr aw] H; simpl in H; subst; reflexivity. Qed.
+
+  Lemma await_none : forall s, iaw_ s = [] -> await s RNone = st_of s.
+  Proof. intros [w tr aw] H; simpl in H; subst; reflexivity. Qed.
+
+  (* the glue of _do_step / run_chain, seen from a stepper whose "finished" coincides with the
+     end of the whole outline iff [last] *)
+  Definition glue (last : bool) (s1 : ist) (r : sres A) : (rst * outT) + rst :=
+    match r with
+    | SRaise (XErr e) => inl (st_of s1, OErr e)
+    | SRaise (XReturn c) => inl (st_of s1, OStop (code_rv c))
+    | SOk _ (ROther v) => inl (st_of s1, OStop (ROther v))
+    | SOk true v => inl (if last then st_of s1 else await s1 v, ONormal v)
+    | SOk false v => inr (await s1 v)
+    end.
+
+  (* result: remaining fuel, final reference state, outcome *)
+  Fixpoint drive (n : nat) (last : bool) (i : instr) (sp : spos) (st : rst)
+      : option (nat * rst * outT) :=
+    match n with
+    | 0 => None
+    | S n' =>
+        let '(s1, sp1, r) := step_instr i sp (mk st) in
+        match glue last s1 r with
+        | inl (st', o) => Some (n', st', o)
+        | inr st1 => drive n' last i sp1 st1
+        end
+    end.
+
+  Lemma drive_S : forall n last i sp st,
+    drive (S n) last i sp st =
+      let '(s1, sp1, r) := step_instr i sp (mk st) in
+      match glue last s1 r with
+      | inl (st', o) => Some (n, st', o)
+      | inr st1 => drive n last i sp1 st1
+      end.
+  Proof. reflexivity. Qed.
+
+  Lemma drive_lt : forall n last i sp st k st' o,
+    drive n last i sp st = Some (k, st', o) -> k < n.
+  Proof.
+    induction n as [|n IH]; intros last i sp st k st' o H; [discriminate|].
+    rewrite drive_S in H. destruct (step_instr i sp (mk st)) as [[s1 sp1] r].
+    destruct (glue last s1 r) as [[st'' o'']|st1].
+    - inversion H; subst; lia.
+    - apply IH in H. lia.
+  Qed.
+
+  Lemma drive_add : forall n last i sp st k st' o,
+    drive n last i sp st = Some (k, st', o) ->
+    forall m, drive (n + m) last i sp st = Some (k + m, st', o).
+  Proof.
+    induction n as [|n IH]; intros last i sp st k st' o H m; [discriminate|].
+    change (S n + m) with (S (n + m)). rewrite drive_S in *.
+    destruct (step_instr i sp (mk st)) as [[s1 sp1] r].
+    destruct (glue last s1 r) as [[st'' o'']|st1].
+    - inversion H; subst; reflexivity.
+    - apply IH; assumption.
+  Qed.
+
+  Lemma drive_mono : forall n last i sp st k st' o n',
+    drive n last i sp st = Some (k, st', o) -> n <= n' ->
+    drive n' last i sp st = Some (k + (n' - n), st', o).
+  Proof.
+    intros n last i sp st k st' o n' H Hle.
+    replace n' with (n + (n' - n)) at 1 by lia. apply drive_add; assumption.
+  Qed.
+
+  (* A parent stepper whose step is "step the child, then post-process". *)
+  Definition wpost (wrap : spos -> spos) (next : spos) (fin' : bool)
+      (x : ist * spos * sres A) : ist * spos * sres A :=
+    let '(s', c', r) := x in
+    match r with
+    | SRaise e => (s', wrap c', SRaise e)
+    | SOk true v => (s', next, SOk fin' v)
+    | SOk false v => (s', wrap c', SOk false v)
+    end.
+
+  Definition wcont (last : bool) (P : instr) (next : spos) (fin' : bool)
+      (x : option (nat * rst * outT)) : option (nat * rst * outT) :=
+    match x with
+    | None => None
+    | Some (k, st1, o) =>
+        match o with
+        | OutlineSem.ONormal _ v => if fin' then Some (k, st1, o) else drive k last P next st1
+        | _ => Some (k, st1, o)
+        end
+    end.
+
+  Lemma wcont_true : forall last P next x, wcont last P next true x = x.
+  Proof. intros last P next [[[k st1] [v|v|e]]|]; reflexivity. Qed.
+
+  Lemma drive_wrap : forall P C wrap next fin' last,
+    (forall c s, step_instr P (wrap c) s = wpost wrap next fin' (step_instr C c s)) ->
+    forall n c st,
+      drive n last P (wrap c) st = wcont last P next fin' (drive n (last && fin') C c st).
+  Proof.
+    intros P C wrap next fin' last Hstep.
+    induction n as [|n IH]; intros c st; [reflexivity|].
+    rewrite !drive_S. rewrite Hstep.
+    destruct (step_instr C c (mk st)) as [[s' c'] r].
+    unfold wpost.
+    destruct r as [[|] [|d|v] | [cd|e]]; cbn [glue wcont]; try reflexivity; try apply IH.
+    - destruct fin', last; reflexivity.
+    - destruct fin', last; reflexivity.
+    - destruct fin'; reflexivity.
+  Qed.
+
+  (* ------------------------------------------------------------------ *)
+  (* Blocks: indexing, suffixes, creation                               *)
+  (* ------------------------------------------------------------------ *)
+
+  Fixpoint bnth (b : block) (n : nat) : option instr :=
+    match b, n with
+    | BNil, _ => None
+    | BCons i _, 0 => Some i
+    | BCons _ b', S n' => bnth b' n'
+    end.
+
+  Fixpoint bskip (n : nat) (b : block) : block :=
+    match n, b with
+    | 0, _ => b
+    | S n', BCons _ b' => bskip n' b'
+    | S _, BNil => BNil
+    end.
+
+  Lemma step_nth_bnth : forall b n i, bnth b n = Some i ->
+    forall c s, step_nth b n c s = step_instr i c s.
+  Proof.
+    induction b as [|j b IH]; intros n i H c s; [discriminate|].
+    destruct n as [|n]; simpl in H.
+    - inversion H; subst; reflexivity.
+    - simpl. apply IH; assumption.
+  Qed.
+
+  Lemma create_nth_bnth : forall b n i, bnth b n = Some i -> create_nth b n = create i.
+  Proof.
+    induction b as [|j b IH]; intros n i H; [discriminate|].
+    destruct n as [|n]; simpl in H.
+    - inversion H; subst; reflexivity.
+    - simpl. apply IH; assumption.
+  Qed.
+
+  Lemma bnth_lt : forall b n i, bnth b n = Some i -> n < blen b.
+  Proof.
+    induction b as [|j b IH]; intros n i H; [discriminate|].
+    destruct n as [|n]; simpl in *; [lia|]. apply IH in H. lia.
+  Qed.
+
+  Lemma bnth_some : forall b n, n < blen b -> exists i, bnth b n = Some i.
+  Proof.
+    induction b as [|j b IH]; intros n H; simpl in H; [lia|].
+    destruct n as [|n]; simpl; [eauto|]. apply IH. lia.
+  Qed.
+
+  Lemma bskip_cons : forall pos bfull i rest, bskip pos bfull = BCons i rest ->
+    bnth bfull pos = Some i /\ bskip (S pos) bfull = rest /\ blen bfull = S pos + blen rest.
+  Proof.
+    induction pos as [|pos IH]; intros bfull i rest H.
+    - simpl in H; subst. simpl. destruct rest; auto.
+    - destruct bfull as [|j b]; simpl in H; [discriminate|].
+      apply IH in H. destruct H as (H1 & H2 & H3). simpl. repeat split; auto.
+  Qed.
+
+  Lemma bskip_nil_create : forall pos bfull, bskip pos bfull = BNil ->
+    create_nth bfull pos = inl (XErr EIndex).
+  Proof.
+    induction pos as [|pos IH]; intros bfull H.
+    - simpl in H; subst; reflexivity.
+    - destruct bfull as [|j b]; simpl in *; [reflexivity|]. apply IH; assumption.
+  Qed.
+
+  Lemma wf_block_bnth : forall b n i, wf_block b = true -> bnth b n = Some i -> wf_instr i = true.
+  Proof.
+    induction b as [|j b IH]; intros n i Hwf H; [discriminate|].
+    simpl in Hwf. apply andb_true_iff in Hwf. destruct Hwf as [Hj Hb].
+    destruct n as [|n]; simpl in H.
+    - inversion H; subst; assumption.
+    - eapply IH; eassumption.
+  Qed.
+
+  Lemma create_block_inv : forall b sp, create_block b = inr sp ->
+    exists i b' c, b = BCons i b' /\ create i = inr c /\ sp = PBlock 0 (Some c).
+  Proof.
+    intros [|i b'] sp H; simpl in H; [discriminate|].
+    destruct (create i) as [x|c] eqn:E; [discriminate|].
+    inversion H; subst. exists i, b', c. repeat split; assumption.
+  Qed.
+
+  Lemma wf_create_mut :
+    (forall i, wf_instr i = true -> exists sp, create i = inr sp) /\
+    (forall b, wf_block b = true -> blen b <> 0 -> exists sp, create_block b = inr sp) /\
+    (forall brs : branches, True).
+  Proof.
+    apply instr_mutind; intros; simpl; eauto.
+    - (* IBlock *)
+      simpl in H0. apply andb_true_iff in H0. destruct H0 as [Hne Hwf].
+      apply H; auto. destruct (blen b); simpl in Hne; [discriminate|lia].
+    - (* BNil *) simpl in H0. lia.
+    - (* BCons *)
+      simpl in H1. apply andb_true_iff in H1. destruct H1 as [Hi Hb].
+      destruct (H Hi) as [c Hc]. rewrite Hc. eauto.
+  Qed.
+
+  Lemma wf_create : forall i, wf_instr i = true -> exists sp, create i = inr sp.
+  Proof. exact (proj1 wf_create_mut). Qed.
+
+  Lemma wf_create_block : forall b, wf_block b = true -> negb (blen b =? 0) = true ->
+    exists c, create_block b = inr (PBlock 0 (Some c)).
+  Proof.
+    intros b Hwf Hne.
+    destruct (proj1 (proj2 wf_create_mut) b Hwf) as [sp Hsp].
+    - destruct (blen b); simpl in Hne; [discriminate|lia].
+    - destruct (create_block_inv _ _ Hsp) as (i & b' & c & _ & _ & ->). eauto.
+  Qed.
+
+  Lemma wf_create_nth : forall b n, wf_block b = true -> n < blen b ->
+    exists c, create_nth b n = inr c.
+  Proof.
+    intros b n Hwf Hlt. destruct (bnth_some _ _ Hlt) as [i Hi].
+    rewrite (create_nth_bnth _ _ _ Hi). apply wf_create. eapply wf_block_bnth; eassumption.
+  Qed.
+
+  (* the stepper a block moves to when its child at [pos] finishes *)
+  Definition bnext (b : block) (pos : nat) : spos :=
+    if S pos =? blen b then PBlock (S pos) None
+    else match create_nth b (S pos) with
+         | inr c2 => PBlock (S pos) (Some c2)
+         | inl _ => PBlock (S pos) None
+         end.
+
+  Lemma bnext_some : forall b pos, wf_block b = true -> S pos < blen b ->
+    exists c2, create_nth b (S pos) = inr c2 /\ bnext b pos = PBlock (S pos) (Some c2).
+  Proof.
+    intros b pos Hwf Hlt. destruct (wf_create_nth _ _ Hwf Hlt) as [c2 Hc2].
+    exists c2. split; [assumption|]. unfold bnext. rewrite Hc2.
+    destruct (S pos =? blen b) eqn:E; [apply Nat.eqb_eq in E; lia|reflexivity].
+  Qed.
+
+  Lemma step_block_wrap : forall b pos i, wf_block b = true -> bnth b pos = Some i ->
+    forall c s, step_instr (IBlock b) (PBlock pos (Some c)) s =
+      wpost (fun c => PBlock pos (Some c)) (bnext b pos) (S pos =? blen b) (step_instr i c s).
+  Proof.
+    intros b pos i Hwf Hi c s.
+    change (step_instr (IBlock b) (PBlock pos (Some c)) s)
+      with (block_step (step_nth b) b pos (Some c) s).
+    unfold block_step. pose proof (bnth_lt _ _ _ Hi) as Hlt.
+    destruct (pos =? blen b) eqn:E; [apply Nat.eqb_eq in E; lia|].
+    rewrite (step_nth_bnth _ _ _ Hi).
+    destruct (step_instr i c s) as [[s' c'] r]. unfold wpost.
+    destruct r as [[|] v|x]; try reflexivity.
+    unfold bnext. destruct (S pos =? blen b) eqn:E2; [reflexivity|].
+    apply Nat.eqb_neq in E2.
+    destruct (wf_create_nth b (S pos) Hwf) as [c2 Hc2]; [lia|]. rewrite Hc2. reflexivity.
+  Qed.
+
+  Lemma drive_block : forall b pos i last, wf_block b = true -> bnth b pos = Some i ->
+    forall n c st,
+      drive n last (IBlock b) (PBlock pos (Some c)) st =
+        wcont last (IBlock b) (bnext b pos) (S pos =? blen b)
+              (drive n (last && (S pos =? blen b)) i c st).
+  Proof.
+    intros b pos i last Hwf Hi.
+    apply (drive_wrap (IBlock b) i (fun c => PBlock pos (Some c))).
+    apply step_block_wrap; assumption.
+  Qed.
+
+  (* ------------------------------------------------------------------ *)
+  (* If and while: the child is the stepper of the body block           *)
+  (* ------------------------------------------------------------------ *)
+
+  Lemma step_branch_body : forall brs k body, branch_body brs k = Some body ->
+    forall c s, step_branch brs k c s = step_instr (IBlock body) c s.
+  Proof.
+    induction brs as [|p b rest IH]; intros k body H c s; [discriminate|].
+    destruct k as [|k]; simpl in H.
+    - inversion H; subst. destruct c; reflexivity.
+    - simpl. apply IH; assumption.
+  Qed.
+
+  Lemma branch_body_lt : forall brs k body, branch_body brs k = Some body -> k < brlen brs.
+  Proof.
+    induction brs as [|p b rest IH]; intros k body H; [discriminate|].
+    destruct k as [|k]; simpl in *; [lia|]. apply IH in H. lia.
+  Qed.
+
+  Lemma branch_body_some : forall brs k, k < brlen brs -> exists body, branch_body brs k = Some body.
+  Proof.
+    induction brs as [|p b rest IH]; intros k H; simpl in H; [lia|].
+    destruct k as [|k]; simpl; [eauto|]. apply IH. lia.
+  Qed.
+
+  Lemma wf_branch_body : forall brs k body, wf_branches brs = true ->
+    branch_body brs k = Some body -> negb (blen body =? 0) = true /\ wf_block body = true.
+  Proof.
+    induction brs as [|p b rest IH]; intros k body Hwf H; [discriminate|].
+    simpl in Hwf. apply andb_true_iff in Hwf. destruct Hwf as [Hwf Hrest].
+    apply andb_true_iff in Hwf. destruct Hwf as [Hne Hb].
+    destruct k as [|k]; simpl in H.
+    - inversion H; subst; auto.
+    - eapply IH; eassumption.
+  Qed.
+
+  Lemma step_if_wrap : forall brs pos body, branch_body brs pos = Some body ->
+    forall c s, step_instr (IIf brs) (PIf pos (Some c)) s =
+      wpost (fun c => PIf pos (Some c)) (PIf (brlen brs) None) true
+            (step_instr (IBlock body) c s).
+  Proof.
+    intros brs pos body Hb c s.
+    pose proof (branch_body_lt _ _ _ Hb) as Hlt.
+    change (step_instr (IIf brs) (PIf pos (Some c)) s)
+      with (if pos =? brlen brs then (s, PIf pos (Some c), SOk true (@RNone A))
+            else if_result W A (brlen brs) pos (step_branch brs pos c s)).
+    destruct (pos =? brlen brs) eqn:E; [apply Nat.eqb_eq in E; lia|].
+    rewrite (step_branch_body _ _ _ Hb).
+    destruct (step_instr (IBlock body) c s) as [[s' c'] r]. reflexivity.
+  Qed.
+
+  Lemma drive_if_child : forall brs pos body last, branch_body brs pos = Some body ->
+    forall n c st,
+      drive n last (IIf brs) (PIf pos (Some c)) st = drive n last (IBlock body) c st.
+  Proof.
+    intros brs pos body last Hb n c st.
+    rewrite (drive_wrap (IIf brs) (IBlock body) (fun c => PIf pos (Some c))
+                        (PIf (brlen brs) None) true last (step_if_wrap _ _ _ Hb)).
+    rewrite wcont_true, andb_true_r. reflexivity.
+  Qed.
+
+  Lemma step_while_wrap : forall p body c s,
+    step_instr (IWhile p body) (PWhile (Some c)) s =
+      wpost (fun c => PWhile (Some c)) (PWhile None) false (step_instr (IBlock body) c s).
+  Proof.
+    intros p body c s. destruct c; reflexivity.
+  Qed.
+
+  Lemma drive_while_child : forall p body last n c st,
+    drive n last (IWhile p body) (PWhile (Some c)) st =
+      wcont last (IWhile p body) (PWhile None) false (drive n false (IBlock body) c st).
+  Proof.
+    intros p body last n c st.
+    rewrite (drive_wrap (IWhile p body) (IBlock body) (fun c => PWhile (Some c))
+                        (PWhile None) false last (step_while_wrap p body)).
+    rewrite andb_false_r. reflexivity.
+  Qed.
+
+  (* ------------------------------------------------------------------ *)
+  (* Predicates, the while head and the if scan                         *)
+  (* ------------------------------------------------------------------ *)
+
+  Lemma call_pred_iaw : forall p s s1 r, call_pred p s = (s1, r) -> iaw_ s1 = iaw_ s.
+  Proof.
+    intros [n|] s s1 r H; simpl in H.
+    - destruct (predf n (iw_ s)) as [w' r']. inversion H; subst; reflexivity.
+    - inversion H; subst; reflexivity.
+  Qed.
+
+  Lemma call_pred_mk : forall p st s1 r, call_pred p (mk st) = (s1, r) ->
+    iaw_ s1 = [] /\ pred_eval p st (st_of s1) r.
+  Proof.
+    intros p [w tr] s1 r H. split.
+    - apply call_pred_iaw in H. exact H.
+    - destruct p as [n|]; simpl in H.
+      + destruct (predf n w) as [w' r'] eqn:E. inversion H; subst.
+        unfold st_of; simpl. apply PE_user; assumption.
+      + inversion H; subst. apply PE_true.
+  Qed.
+
+  Lemma pred_eval_call : forall p st st1 r,
+    pred_eval p st st1 r -> call_pred p (mk st) = (mk st1, r).
+  Proof.
+    intros p st st1 r H. inversion H as [[w tr] | n w tr w' r' Hp]; subst.
+    - reflexivity.
+    - simpl. rewrite Hp. reflexivity.
+  Qed.
+
+  Lemma step_while_none_unf : forall p body s,
+    step_instr (IWhile p body) (PWhile None) s =
+      let '(s1, r) := call_pred p s in
+      match r with
+      | inl e => (s1, PWhile None, SRaise (XErr e))
+      | inr false => (s1, PWhile None, SOk true RNone)
+      | inr true =>
+          match create_block body with
+          | inl x => (s1, PWhile None, SRaise x)
+          | inr (PBlock pos ch) =>
+              step_instr (IWhile p body) (PWhile (Some (PBlock pos ch))) s1
+          | inr _ => (s1, PWhile None, shape_error A)
+          end
+      end.
+  Proof. reflexivity. Qed.
+
+  Lemma step_while_none : forall p body c s,
+    create_block body = inr (PBlock 0 (Some c)) ->
+    step_instr (IWhile p body) (PWhile None) s =
+      let '(s1, r) := call_pred p s in
+      match r with
+      | inl e => (s1, PWhile None, SRaise (XErr e))
+      | inr false => (s1, PWhile None, SOk true RNone)
+      | inr true => step_instr (IWhile p body) (PWhile (Some (PBlock 0 (Some c)))) s1
+      end.
+  Proof.
+    intros p body c s H. rewrite step_while_none_unf, H. reflexivity.
+  Qed.
+
+  Lemma drive_while_head : forall n last p body st c,
+    create_block body = inr (PBlock 0 (Some c)) ->
+    drive (S n) last (IWhile p body) (PWhile None) st =
+      let '(s1, r) := call_pred p (mk st) in
+      match r with
+      | inl e => Some (n, st_of s1, OErr e)
+      | inr false => Some (n, st_of s1, ONormal RNone)
+      | inr true =>
+          drive (S n) last (IWhile p body) (PWhile (Some (PBlock 0 (Some c)))) (st_of s1)
+      end.
+  Proof.
+    intros n last p body st c H. rewrite drive_S. rewrite (step_while_none _ _ _ _ H).
+    destruct (call_pred p (mk st)) as [s1 r] eqn:E.
+    destruct (call_pred_mk _ _ _ _ E) as [Haw _].
+    destruct r as [e|[|]].
+    - reflexivity.
+    - rewrite drive_S. rewrite (mk_st_of _ Haw). reflexivity.
+    - cbn [glue]. rewrite (await_none _ Haw). destruct last; reflexivity.
+  Qed.
+
+  Lemma scan_add : forall brs a b s,
+    scan_branches brs (a + b) s =
+      let '(s1, p1, e) := scan_branches brs b s in (s1, a + p1, e).
+  Proof.
+    induction brs as [|p body rest IH]; intros a b s; simpl.
+    - reflexivity.
+    - destruct (call_pred p s) as [s' r]. destruct r as [e|[|]]; try reflexivity.
+      rewrite plus_n_Sm. apply IH.
+  Qed.
+
+  Lemma scan_iaw : forall brs pos s s1 pos1 e,
+    scan_branches brs pos s = (s1, pos1, e) -> iaw_ s1 = iaw_ s.
+  Proof.
+    induction brs as [|p body rest IH]; intros pos s s1 pos1 e H; simpl in H.
+    - inversion H; subst; reflexivity.
+    - destruct (call_pred p s) as [s' r] eqn:E. apply call_pred_iaw in E.
+      destruct r as [e'|[|]].
+      + inversion H; subst; assumption.
+      + inversion H; subst; assumption.
+      + apply IH in H. congruence.
+  Qed.
+
+  Lemma scan_bound : forall brs pos s s1 pos1 e,
+    scan_branches brs pos s = (s1, pos1, e) -> pos1 <= pos + brlen brs.
+  Proof.
+    induction brs as [|p body rest IH]; intros pos s s1 pos1 e H; simpl in H.
+    - inversion H; subst; simpl; lia.
+    - destruct (call_pred p s) as [s' r] eqn:E.
+      destruct r as [e'|[|]].
+      + inversion H; subst; lia.
+      + inversion H; subst; lia.
+      + apply IH in H. simpl. lia.
+  Qed.
+
+  Lemma step_if_none : forall brs s,
+    step_instr (IIf brs) (PIf 0 None) s =
+      let '(s1, pos1, err) := scan_branches brs 0 s in
+      match err with
+      | Some e => (s1, PIf pos1 None, SRaise (XErr e))
+      | None =>
+          if pos1 =? brlen brs then (s1, PIf pos1 None, SOk true RNone)
+          else match branch_body brs pos1 with
+               | None => (s1, PIf pos1 None, SRaise (XErr EIndex))
+               | Some body =>
+                   match create_block body with
+                   | inl x => (s1, PIf pos1 None, SRaise x)
+                   | inr c => step_instr (IIf brs) (PIf pos1 (Some c)) s1
+                   end
+               end
+      end.
+  Proof.
+    intros brs s. destruct brs as [|p body rest]; [reflexivity|].
+    change (step_instr (IIf (BrCons p body rest)) (PIf 0 None) s)
+      with (let '(s1, pos1, err) := scan_branches (BrCons p body rest) 0 s in
+            match err with
+            | Some e => (s1, PIf pos1 None, SRaise (XErr e))
+            | None =>
+                if pos1 =? brlen (BrCons p body rest) then (s1, PIf pos1 None, SOk true (@RNone A))
+                else match branch_body (BrCons p body rest) pos1 with
+                     | None => (s1, PIf pos1 None, SRaise (XErr EIndex))
+                     | Some body0 =>
+                         match create_block body0 with
+                         | inl x => (s1, PIf pos1 None, SRaise x)
+                         | inr c => if_result W A (brlen (BrCons p body rest)) pos1
+                                      (step_branch (BrCons p body rest) pos1 c s1)
+                         end
+                     end
+            end).
+    destruct (scan_branches (BrCons p body rest) 0 s) as [[s1 pos1] err].
+    destruct err as [e|]; [reflexivity|].
+    destruct (pos1 =? brlen (BrCons p body rest)) eqn:E; [reflexivity|].
+    destruct (branch_body (BrCons p body rest) pos1) as [body0|]; [|reflexivity].
+    destruct (create_block body0) as [x|c]; [reflexivity|].
+    change (step_instr (IIf (BrCons p body rest)) (PIf pos1 (Some c)) s1)
+      with (if pos1 =? brlen (BrCons p body rest)
+            then (s1, PIf pos1 (Some c), SOk true (@RNone A))
+            else if_result W A (brlen (BrCons p body rest)) pos1
+                   (step_branch (BrCons p body rest) pos1 c s1)).
+    rewrite E. reflexivity.
+  Qed.
+
+  Lemma drive_if_err : forall n last brs st s1 pos1 e,
+    scan_branches brs 0 (mk st) = (s1, pos1, Some e) ->
+    drive (S n) last (IIf brs) (PIf 0 None) st = Some (n, st_of s1, OErr e).
+  Proof.
+    intros n last brs st s1 pos1 e H. rewrite drive_S, step_if_none, H. reflexivity.
+  Qed.
+
+  Lemma drive_if_none : forall n last brs st s1,
+    scan_branches brs 0 (mk st) = (s1, brlen brs, None) ->
+    drive (S n) last (IIf brs) (PIf 0 None) st = Some (n, st_of s1, ONormal RNone).
+  Proof.
+    intros n last brs st s1 H. rewrite drive_S, step_if_none, H.
+    rewrite Nat.eqb_refl. cbn [glue].
+    rewrite await_none by (apply scan_iaw in H; exact H).
+    destruct last; reflexivity.
+  Qed.
+
+  Lemma drive_if_taken : forall n last brs st s1 pos1 body c,
+    scan_branches brs 0 (mk st) = (s1, pos1, None) ->
+    branch_body brs pos1 = Some body ->
+    create_block body = inr c ->
+    drive (S n) last (IIf brs) (PIf 0 None) st =
+      drive (S n) last (IIf brs) (PIf pos1 (Some c)) (st_of s1).
+  Proof.
+    intros n last brs st s1 pos1 body c H Hb Hc.
+    rewrite !drive_S, step_if_none, H.
+    pose proof (branch_body_lt _ _ _ Hb) as Hlt.
+    destruct (pos1 =? brlen brs) eqn:E; [apply Nat.eqb_eq in E; lia|].
+    rewrite Hb, Hc. rewrite mk_st_of by (apply scan_iaw in H; exact H). reflexivity.
+  Qed.
+
+  (* the scan characterises exec_branches *)
+  Lemma scan_exec : forall last brs st s1 pos1 err st' o,
+    scan_branches brs 0 (mk st) = (s1, pos1, err) ->
+    match err with
+    | Some e => o = OErr e /\ st' = st_of s1
+    | None => (pos1 = brlen brs /\ o = ONormal RNone /\ st' = st_of s1) \/
+              (exists body, branch_body brs pos1 = Some body /\
+                            exec_block last body (st_of s1) st' o)
+    end -> exec_branches last brs st st' o.
+  Proof.
+    intros last. induction brs as [|p body rest IH]; intros st s1 pos1 err st' o Hscan H.
+    - simpl in Hscan. inversion Hscan; subst.
+      destruct H as [(_ & -> & ->) | (body & Hb & _)]; [|discriminate].
+      rewrite st_of_mk. apply EBr_none.
+    - simpl in Hscan. destruct (call_pred p (mk st)) as [s' r] eqn:E.
+      destruct (call_pred_mk _ _ _ _ E) as [Haw Hp].
+      destruct r as [e|[|]].
+      + inversion Hscan; subst. destruct H as [-> ->]. apply EBr_err; assumption.
+      + inversion Hscan; subst.
+        destruct H as [(Hl & _) | (body' & Hb & Hx)]; [simpl in Hl; discriminate|].
+        simpl in Hb. inversion Hb; subst. eapply EBr_taken; eassumption.
+      + change 1 with (1 + 0) in Hscan. rewrite scan_add in Hscan.
+        rewrite <- (mk_st_of _ Haw) in Hscan.
+        destruct (scan_branches rest 0 (mk (st_of s'))) as [[s1' p1'] e'] eqn:E2.
+        inversion Hscan; subst.
+        eapply EBr_skip; [eassumption|]. eapply IH; [eassumption|].
+        destruct err as [e|]; [assumption|].
+        destruct H as [(Hl & Ho & Hs) | (body' & Hb & Hx)].
+        * left. simpl in Hl. repeat split; auto.
+        * right. exists body'. split; assumption.
+  Qed.
+
+  (* ------------------------------------------------------------------ *)
+  (* run_chain is the top-level drive                                    *)
+  (* ------------------------------------------------------------------ *)
+
+  Lemma run_chain_S : forall n o sp s,
+    run_chain (S n) o sp s =
+      let '(s1, sp1, d) := do_step o sp s in
+      match d with
+      | DFinish _ r => Some (s1, sp1, inr r)
+      | DFail _ e => Some (s1, sp1, inl e)
+      | DContinue _ => run_chain n o sp1 s1
+      | DWait _ aw => run_chain n o sp1 (mk_ist (assign aw (iw_ s1)) (icalls_ s1) (iaw_ s1))
+      end.
+  Proof. reflexivity. Qed.
+
+  Lemma run_chain_drive : forall n o sp s,
+    match run_chain n o sp s with
+    | None => drive n true o sp (st_of s) = None
+    | Some (s', sp', r) =>
+        exists k out, drive n true o sp (st_of s) = Some (k, st_of s', out) /\
+                      chain_result out = r
+    end.
+  Proof.
+    induction n as [|n IH]; intros o sp s; [reflexivity|].
+    rewrite drive_S, run_chain_S. unfold OutlineModel.do_step.
+    change (mk (st_of s)) with (mk_ist (iw_ s) (icalls_ s) []).
+    destruct (step_instr o sp (mk_ist (iw_ s) (icalls_ s) [])) as [[s1 sp1] r].
+    destruct r as [[|] [|d|v] | [c|e]]; cbn [glue].
+    - exists n, (ONormal RNone). split; reflexivity.
+    - exists n, (ONormal (RToCtx d)). split; reflexivity.
+    - exists n, (OStop (ROther v)). split; reflexivity.
+    - destruct (iaw_ s1) as [|a l] eqn:E.
+      + specialize (IH o sp1 s1).
+        replace (await s1 RNone) with (st_of s1); [exact IH|].
+        unfold await; rewrite E; reflexivity.
+      + specialize (IH o sp1 (mk_ist (assign (a :: l) (iw_ s1)) (icalls_ s1) (iaw_ s1))).
+        replace (await s1 RNone)
+          with (st_of (mk_ist (assign (a :: l) (iw_ s1)) (icalls_ s1) (iaw_ s1))); [exact IH|].
+        unfold await, st_of; simpl. rewrite E, app_nil_r. reflexivity.
+    - simpl. destruct (iaw_ s1 ++ d) as [|a l] eqn:E.
+      + specialize (IH o sp1 (mk_ist (iw_ s1) (icalls_ s1) [])).
+        replace (await s1 (RToCtx d)) with (st_of (mk_ist (iw_ s1) (icalls_ s1) [])); [exact IH|].
+        unfold await, st_of; simpl. rewrite E. reflexivity.
+      + specialize (IH o sp1 (mk_ist (assign (a :: l) (iw_ s1)) (icalls_ s1) (a :: l))).
+        replace (await s1 (RToCtx d))
+          with (st_of (mk_ist (assign (a :: l) (iw_ s1)) (icalls_ s1) (a :: l))); [exact IH|].
+        unfold await, st_of; simpl. rewrite E. reflexivity.
+    - exists n, (OStop (ROther v)). split; reflexivity.
+    - exists n, (OStop (code_rv c)). split; reflexivity.
+    - exists n, (OErr e). split; reflexivity.
+  Qed.
+
+  (* ------------------------------------------------------------------ *)
+  (* Leaves                                                              *)
+  (* ------------------------------------------------------------------ *)
+
+  Lemma step_ret_unf : forall c s,
+    step_instr (IReturn c) PRet s = (s, PRet, SRaise (XReturn c)).
+  Proof. reflexivity. Qed.
+
+  Lemma step_fun_unf : forall f s,
+    step_instr (IStep f) PFun s =
+      let '(s', r) := call_step f s in
+      match r with
+      | inr v => (s', PFun, SOk true v)
+      | inl e => (s', PFun, SRaise (XErr e))
+      end.
+  Proof. reflexivity. Qed.
+
+  Lemma drive_step : forall n last f w tr,
+    drive (S n) last (IStep f) PFun (w, tr) =
+      let '(w', reg, r) := stepf f w in
+      match r with
+      | inl e => Some (n, (w', tr ++ [CStep f]), OErr e)
+      | inr (ROther v) => Some (n, (w', tr ++ [CStep f]), OStop (ROther v))
+      | inr v => Some (n, (if last then w' else barrier (reg ++ rv_regs v) w',
+                           tr ++ [CStep f]), ONormal v)
+      end.
+  Proof.
+    intros n last f w tr. rewrite drive_S, step_fun_unf.
+    unfold OutlineModel.call_step, mk. simpl.
+    destruct (stepf f w) as [[w' reg] r].
+    destruct r as [e|[|d|v]]; simpl; try reflexivity; destruct last; reflexivity.
+  Qed.
+
+  Lemma drive_return : forall n last c st,
+    drive (S n) last (IReturn c) PRet st = Some (n, st, OStop (code_rv c)).
+  Proof.
+    intros n last c st. rewrite drive_S, step_ret_unf. cbn [glue]. rewrite st_of_mk. reflexivity.
+  Qed.
+
+  Lemma scan_cons : forall p body rest pos s,
+    scan_branches (BrCons p body rest) pos s =
+      let '(s', r) := call_pred p s in
+      match r with
+      | inl e => (s', pos, Some e)
+      | inr true => (s', pos, None)
+      | inr false => scan_branches rest (S pos) s'
+      end.
+  Proof. reflexivity. Qed.
+
+  (* ------------------------------------------------------------------ *)
+  (* Soundness: a terminating drive from the initial stepper is an exec  *)
+  (* ------------------------------------------------------------------ *)
+
+  Definition SI (n : nat) (i : instr) : Prop :=
+    forall last st k st' o sp, wf_instr i = true -> create i = inr sp ->
+      drive n last i sp st = Some (k, st', o) -> exec_instr last i st st' o.
+  Definition SB (n : nat) (b : block) : Prop :=
+    forall bfull pos c0 last st k st' o, bskip pos bfull = b -> wf_block bfull = true ->
+      create_nth bfull pos = inr c0 ->
+      drive n last (IBlock bfull) (PBlock pos (Some c0)) st = Some (k, st', o) ->
+      exec_block last b st st' o.
+  Definition SBr (n : nat) (brs : branches) : Prop :=
+    forall k body, branch_body brs k = Some body -> SB n body.
+
+  Lemma sound_main : forall n,
+    (forall i, SI n i) /\ (forall b, SB n b) /\ (forall brs, SBr n brs).
+  Proof.
+    induction n as [n IHn] using lt_wf_ind.
+    apply instr_mutind.
+    - (* IStep *)
+      intros f last st k st' o sp Hwf Hc Hd. simpl in Hc. inversion Hc; subst sp.
+      destruct n as [|n]; [discriminate|]. destruct st as [w tr].
+      rewrite drive_step in Hd. destruct (stepf f w) as [[w' reg] r] eqn:E.
+      destruct r as [e|[|d|v]]; inversion Hd; subst.
+      + eapply E_step_err; eassumption.
+      + destruct last.
+        * apply (E_step_last W A stepf predf assign f w tr w' reg RNone E).
+          intros v0; discriminate.
+        * apply (E_step_next W A stepf predf assign f w tr w' reg RNone E).
+          intros v0; discriminate.
+      + destruct last.
+        * apply (E_step_last W A stepf predf assign f w tr w' reg (RToCtx d) E).
+          intros v0; discriminate.
+        * apply (E_step_next W A stepf predf assign f w tr w' reg (RToCtx d) E).
+          intros v0; discriminate.
+      + eapply E_step_stop; eassumption.
+    - (* IBlock *)
+      intros b IHb last st k st' o sp Hwf Hc Hd. simpl in Hwf, Hc.
+      apply andb_true_iff in Hwf. destruct Hwf as [Hne Hwfb].
+      destruct (create_block_inv _ _ Hc) as (i & b' & c & -> & Hci & ->).
+      apply E_block.
+      exact (IHb (BCons i b') 0 c last st k st' o eq_refl Hwfb Hci Hd).
+    - (* IIf *)
+      intros brs IHbr last st k st' o sp Hwf Hc Hd. simpl in Hwf, Hc.
+      inversion Hc; subst sp.
+      destruct n as [|n]; [discriminate|].
+      apply E_if.
+      destruct (scan_branches brs 0 (mk st)) as [[s1 pos1] err] eqn:Hscan.
+      eapply scan_exec; [exact Hscan|].
+      destruct err as [e|].
+      + rewrite (drive_if_err _ _ _ _ _ _ _ Hscan) in Hd. inversion Hd; subst; auto.
+      + destruct (Nat.eq_dec pos1 (brlen brs)) as [->|Hne].
+        * rewrite (drive_if_none _ _ _ _ _ Hscan) in Hd. inversion Hd; subst. left; auto.
+        * pose proof (scan_bound _ _ _ _ _ _ Hscan) as Hb. simpl in Hb.
+          destruct (branch_body_some brs pos1) as [body Hbody]; [lia|].
+          destruct (wf_branch_body _ _ _ Hwf Hbody) as [Hne' Hwfb].
+          destruct (wf_create_block _ Hwfb Hne') as [c Hcb].
+          rewrite (drive_if_taken _ _ _ _ _ _ _ _ Hscan Hbody Hcb) in Hd.
+          rewrite (drive_if_child _ _ _ _ Hbody) in Hd.
+          right. exists body. split; [assumption|].
+          destruct (create_block_inv _ _ Hcb) as (i & b' & c' & Hbeq & Hci & Heq).
+          inversion Heq; subst c'.
+          refine (IHbr pos1 body Hbody body 0 c last _ k st' o eq_refl Hwfb _ Hd).
+          subst body. exact Hci.
+    - (* IWhile *)
+      intros p body IHb last st k st' o sp Hwf Hc Hd. simpl in Hwf, Hc.
+      inversion Hc; subst sp.
+      apply andb_true_iff in Hwf. destruct Hwf as [Hne Hwfb].
+      destruct (wf_create_block _ Hwfb Hne) as [c Hcb].
+      destruct n as [|n]; [discriminate|].
+      rewrite (drive_while_head _ _ _ _ _ _ Hcb) in Hd.
+      destruct (call_pred p (mk st)) as [s1 r] eqn:E.
+      destruct (call_pred_mk _ _ _ _ E) as [Haw Hp].
+      destruct r as [e|[|]].
+      + inversion Hd; subst. apply E_while_err; assumption.
+      + rewrite drive_while_child in Hd.
+        destruct (drive (S n) false (IBlock body) (PBlock 0 (Some c)) (st_of s1))
+          as [[[k1 st1] o1]|] eqn:D; [|discriminate].
+        assert (Hx : exec_block false body (st_of s1) st1 o1).
+        { destruct (create_block_inv _ _ Hcb) as (i & b' & c' & Hbeq & Hci & Heq).
+          inversion Heq; subst c'.
+          refine (IHb body 0 c false _ k1 st1 o1 eq_refl Hwfb _ D).
+          subst body. exact Hci. }
+        pose proof (drive_lt _ _ _ _ _ _ _ _ D) as Hlt.
+        destruct o1 as [v|v|e]; cbn [wcont] in Hd.
+        * eapply E_while_loop; [eassumption|eassumption|].
+          refine (proj1 (IHn k1 Hlt) (IWhile p body) last st1 k st' o (PWhile None) _ eq_refl Hd).
+          simpl. rewrite Hne, Hwfb. reflexivity.
+        * inversion Hd; subst. eapply E_while_exit; eauto.
+        * inversion Hd; subst. eapply E_while_exit; eauto.
+      + inversion Hd; subst. apply E_while_false; assumption.
+    - (* IReturn *)
+      intros c last st k st' o sp Hwf Hc Hd. simpl in Hc. inversion Hc; subst sp.
+      destruct n as [|n]; [discriminate|]. rewrite drive_return in Hd.
+      inversion Hd; subst. apply E_return.
+    - (* BNil *)
+      intros bfull pos c0 last st k st' o Hs Hwf Hc Hd.
+      rewrite (bskip_nil_create _ _ Hs) in Hc. discriminate.
+    - (* BCons *)
+      intros i IHi b IHb bfull pos c0 last st k st' o Hs Hwf Hc Hd.
+      destruct (bskip_cons _ _ _ _ Hs) as (Hnth & Hs' & Hlen).
+      rewrite (drive_block _ _ _ _ Hwf Hnth) in Hd.
+      pose proof (wf_block_bnth _ _ _ Hwf Hnth) as Hwfi.
+      rewrite (create_nth_bnth _ _ _ Hnth) in Hc.
+      destruct b as [|j b'].
+      + simpl in Hlen.
+        replace (S pos =? blen bfull) with true in Hd by (symmetry; apply Nat.eqb_eq; lia).
+        rewrite wcont_true, andb_true_r in Hd.
+        apply EB_last. eapply IHi; eassumption.
+      + simpl in Hlen.
+        replace (S pos =? blen bfull) with false in Hd by (symmetry; apply Nat.eqb_neq; lia).
+        rewrite andb_false_r in Hd.
+        destruct (drive n false i c0 st) as [[[k1 st1] o1]|] eqn:D; [|discriminate].
+        pose proof (IHi _ _ _ _ _ _ Hwfi Hc D) as Hx.
+        destruct o1 as [v|v|e]; cbn [wcont] in Hd.
+        * destruct (bnext_some bfull pos Hwf) as (c2 & Hc2 & Hnext); [lia|].
+          rewrite Hnext in Hd.
+          pose proof (drive_lt _ _ _ _ _ _ _ _ D) as Hlt.
+          eapply EB_next; [exact Hx|].
+          eapply (IHb bfull (S pos) c2); [exact Hs'|exact Hwf|exact Hc2|].
+          eapply drive_mono; [exact Hd|lia].
+        * inversion Hd; subst. apply EB_stop; auto.
+        * inversion Hd; subst. apply EB_stop; auto.
+    - (* BrNil *)
+      intros k body H. discriminate.
+    - (* BrCons *)
+      intros p body IHb rest IHr k body' H. destruct k as [|k]; simpl in H.
+      + inversion H; subst; exact IHb.
+      + eapply IHr; eassumption.
+  Qed.
+
+  (* ------------------------------------------------------------------ *)
+  (* Completeness: an exec is reproduced by driving the initial stepper  *)
+  (* ------------------------------------------------------------------ *)
+
+  Lemma complete_main :
+    (forall last i st st' o (H : exec_instr last i st st' o),
+       wf_instr i = true -> forall sp, create i = inr sp ->
+       exists n k, drive n last i sp st = Some (k, st', o)) /\
+    (forall last b st st' o (H : exec_block last b st st' o),
+       forall bfull pos c0, bskip pos bfull = b -> wf_block bfull = true ->
+       create_nth bfull pos = inr c0 ->
+       exists n k, drive n last (IBlock bfull) (PBlock pos (Some c0)) st = Some (k, st', o)) /\
+    (forall last brs st st' o (H : exec_branches last brs st st' o),
+       wf_branches brs = true -> forall s1 pos1 err,
+       scan_branches brs 0 (mk st) = (s1, pos1, err) ->
+       match err with
+       | Some e => o = OErr e /\ st' = st_of s1
+       | None =>
+           (pos1 = brlen brs /\ o = ONormal RNone /\ st' = st_of s1) \/
+           (exists body c, branch_body brs pos1 = Some body /\
+              create_block body = inr (PBlock 0 (Some c)) /\
+              exists n k, drive n last (IBlock body) (PBlock 0 (Some c)) (st_of s1)
+                          = Some (k, st', o))
+       end).
+  Proof.
+    apply exec_mutind.
+    - (* E_step_err *)
+      intros last f w tr w' reg e He Hwf sp Hc. simpl in Hc; inversion Hc; subst sp.
+      exists 1, 0. rewrite drive_step, He. reflexivity.
+    - (* E_step_stop *)
+      intros last f w tr w' reg v He Hwf sp Hc. simpl in Hc; inversion Hc; subst sp.
+      exists 1, 0. rewrite drive_step, He. reflexivity.
+    - (* E_step_last *)
+      intros f w tr w' reg r He Hn Hwf sp Hc. simpl in Hc; inversion Hc; subst sp.
+      exists 1, 0. rewrite drive_step, He.
+      destruct r as [|d|v]; [reflexivity|reflexivity|exfalso; exact (Hn v eq_refl)].
+    - (* E_step_next *)
+      intros f w tr w' reg r He Hn Hwf sp Hc. simpl in Hc; inversion Hc; subst sp.
+      exists 1, 0. rewrite drive_step, He.
+      destruct r as [|d|v]; [reflexivity|reflexivity|exfalso; exact (Hn v eq_refl)].
+    - (* E_return *)
+      intros last c st Hwf sp Hc. simpl in Hc; inversion Hc; subst sp.
+      exists 1, 0. apply drive_return.
+    - (* E_block *)
+      intros last b st st' o Hx IH Hwf sp Hc. simpl in Hwf, Hc.
+      apply andb_true_iff in Hwf. destruct Hwf as [Hne Hwfb].
+      destruct (create_block_inv _ _ Hc) as (i & b' & c & -> & Hci & ->).
+      exact (IH (BCons i b') 0 c eq_refl Hwfb Hci).
+    - (* E_if *)
+      intros last brs st st' o Hx IH Hwf sp Hc. simpl in Hwf, Hc. inversion Hc; subst sp.
+      destruct (scan_branches brs 0 (mk st)) as [[s1 pos1] err] eqn:Hscan.
+      specialize (IH Hwf s1 pos1 err eq_refl).
+      destruct err as [e|].
+      + destruct IH as [-> ->]. exists 1, 0. apply (drive_if_err _ _ _ _ _ _ _ Hscan).
+      + destruct IH as [(-> & -> & ->) | (body & c & Hbody & Hcb & n & k & Hd)].
+        * exists 1, 0. apply (drive_if_none _ _ _ _ _ Hscan).
+        * destruct n as [|n]; [discriminate|]. exists (S n), k.
+          rewrite (drive_if_taken _ _ _ _ _ _ _ _ Hscan Hbody Hcb).
+          rewrite (drive_if_child _ _ _ _ Hbody). exact Hd.
+    - (* E_while_err *)
+      intros last p body st st1 e Hp Hwf sp Hc. simpl in Hwf, Hc. inversion Hc; subst sp.
+      apply andb_true_iff in Hwf. destruct Hwf as [Hne Hwfb].
+      destruct (wf_create_block _ Hwfb Hne) as [c Hcb].
+      exists 1, 0. rewrite (drive_while_head _ _ _ _ _ _ Hcb), (pred_eval_call _ _ _ _ Hp).
+      cbv beta iota. rewrite st_of_mk. reflexivity.
+    - (* E_while_false *)
+      intros last p body st st1 Hp Hwf sp Hc. simpl in Hwf, Hc. inversion Hc; subst sp.
+      apply andb_true_iff in Hwf. destruct Hwf as [Hne Hwfb].
+      destruct (wf_create_block _ Hwfb Hne) as [c Hcb].
+      exists 1, 0. rewrite (drive_while_head _ _ _ _ _ _ Hcb), (pred_eval_call _ _ _ _ Hp).
+      cbv beta iota. rewrite st_of_mk. reflexivity.
+    - (* E_while_exit *)
+      intros last p body st st1 st2 o Hp Hx IH Hn Hwf sp Hc. simpl in Hwf, Hc.
+      inversion Hc; subst sp.
+      apply andb_true_iff in Hwf. destruct Hwf as [Hne Hwfb].
+      destruct (wf_create_block _ Hwfb Hne) as [c Hcb].
+      assert (Hcn : create_nth body 0 = inr c).
+      { destruct (create_block_inv _ _ Hcb) as (i & b' & c' & -> & Hci & Heq).
+        inversion Heq; subst c'. exact Hci. }
+      destruct (IH body 0 c eq_refl Hwfb Hcn) as (n & k & Hd).
+      destruct n as [|n]; [discriminate|]. exists (S n), k.
+      rewrite (drive_while_head _ _ _ _ _ _ Hcb), (pred_eval_call _ _ _ _ Hp).
+      cbv beta iota. rewrite st_of_mk, drive_while_child, Hd.
+      destruct o as [v|v|e]; [discriminate Hn|reflexivity|reflexivity].
+    - (* E_while_loop *)
+      intros last p body st st1 st2 st3 v o Hp Hx IHb Hloop IHl Hwf sp Hc.
+      pose proof Hwf as Hwf0. simpl in Hwf, Hc. inversion Hc; subst sp.
+      apply andb_true_iff in Hwf. destruct Hwf as [Hne Hwfb].
+      destruct (wf_create_block _ Hwfb Hne) as [c Hcb].
+      assert (Hcn : create_nth body 0 = inr c).
+      { destruct (create_block_inv _ _ Hcb) as (i & b' & c' & -> & Hci & Heq).
+        inversion Heq; subst c'. exact Hci. }
+      destruct (IHb body 0 c eq_refl Hwfb Hcn) as (n1 & k1 & Hd1).
+      destruct (IHl Hwf0 (PWhile None) eq_refl) as (n2 & k2 & Hd2).
+      destruct n1 as [|n1]; [discriminate|].
+      exists (S (n1 + n2)), (k2 + k1).
+      rewrite (drive_while_head _ _ _ _ _ _ Hcb), (pred_eval_call _ _ _ _ Hp).
+      cbv beta iota. rewrite st_of_mk, drive_while_child.
+      change (S (n1 + n2)) with (S n1 + n2).
+      rewrite (drive_add _ _ _ _ _ _ _ _ Hd1 n2). cbn [wcont].
+      rewrite (Nat.add_comm k1 n2). apply drive_add; exact Hd2.
+    - (* EB_last *)
+      intros last i st st' o Hx IH bfull pos c0 Hs Hwf Hc.
+      destruct (bskip_cons _ _ _ _ Hs) as (Hnth & Hs' & Hlen). simpl in Hlen.
+      rewrite (create_nth_bnth _ _ _ Hnth) in Hc.
+      destruct (IH (wf_block_bnth _ _ _ Hwf Hnth) _ Hc) as (n & k & Hd).
+      exists n, k. rewrite (drive_block _ _ _ _ Hwf Hnth).
+      replace (S pos =? blen bfull) with true by (symmetry; apply Nat.eqb_eq; lia).
+      rewrite wcont_true, andb_true_r. exact Hd.
+    - (* EB_stop *)
+      intros last i j b st st' o Hx IH Hn bfull pos c0 Hs Hwf Hc.
+      destruct (bskip_cons _ _ _ _ Hs) as (Hnth & Hs' & Hlen). simpl in Hlen.
+      rewrite (create_nth_bnth _ _ _ Hnth) in Hc.
+      destruct (IH (wf_block_bnth _ _ _ Hwf Hnth) _ Hc) as (n & k & Hd).
+      exists n, k. rewrite (drive_block _ _ _ _ Hwf Hnth).
+      replace (S pos =? blen bfull) with false by (symmetry; apply Nat.eqb_neq; lia).
+      rewrite andb_false_r, Hd.
+      destruct o as [v|v|e]; [discriminate Hn|reflexivity|reflexivity].
+    - (* EB_next *)
+      intros last i j b st st1 st2 v o Hx IHi Hb IHb bfull pos c0 Hs Hwf Hc.
+      destruct (bskip_cons _ _ _ _ Hs) as (Hnth & Hs' & Hlen). simpl in Hlen.
+      rewrite (create_nth_bnth _ _ _ Hnth) in Hc.
+      destruct (bnext_some bfull pos Hwf) as (c2 & Hc2 & Hnext); [lia|].
+      destruct (IHi (wf_block_bnth _ _ _ Hwf Hnth) _ Hc) as (n1 & k1 & Hd1).
+      destruct (IHb bfull (S pos) c2 Hs' Hwf Hc2) as (n2 & k2 & Hd2).
+      exists (n1 + n2), (k2 + k1). rewrite (drive_block _ _ _ _ Hwf Hnth).
+      replace (S pos =? blen bfull) with false by (symmetry; apply Nat.eqb_neq; lia).
+      rewrite andb_false_r, (drive_add _ _ _ _ _ _ _ _ Hd1 n2). cbn [wcont].
+      rewrite Hnext, (Nat.add_comm k1 n2). apply drive_add; exact Hd2.
+    - (* EBr_none *)
+      intros last st Hwf s1 pos1 err Hscan. simpl in Hscan. inversion Hscan; subst.
+      left. rewrite st_of_mk. auto.
+    - (* EBr_err *)
+      intros last p body rest st st1 e Hp Hwf s1 pos1 err Hscan.
+      rewrite scan_cons, (pred_eval_call _ _ _ _ Hp) in Hscan. cbv beta iota in Hscan.
+      inversion Hscan; subst. rewrite st_of_mk. auto.
+    - (* EBr_taken *)
+      intros last p body rest st st1 st2 o Hp Hx IH Hwf s1 pos1 err Hscan.
+      rewrite scan_cons, (pred_eval_call _ _ _ _ Hp) in Hscan. cbv beta iota in Hscan.
+      inversion Hscan; subst. right.
+      simpl in Hwf. apply andb_true_iff in Hwf. destruct Hwf as [Hwf Hrest].
+      apply andb_true_iff in Hwf. destruct Hwf as [Hne Hwfb].
+      destruct (wf_create_block _ Hwfb Hne) as [c Hcb].
+      assert (Hcn : create_nth body 0 = inr c).
+      { destruct (create_block_inv _ _ Hcb) as (i & b' & c' & -> & Hci & Heq).
+        inversion Heq; subst c'. exact Hci. }
+      exists body, c. split; [reflexivity|]. split; [exact Hcb|].
+      rewrite st_of_mk. exact (IH body 0 c eq_refl Hwfb Hcn).
+    - (* EBr_skip *)
+      intros last p body rest st st1 st2 o Hp Hx IH Hwf s1 pos1 err Hscan.
+      rewrite scan_cons, (pred_eval_call _ _ _ _ Hp) in Hscan. cbv beta iota in Hscan.
+      change 1 with (1 + 0) in Hscan. rewrite scan_add in Hscan.
+      destruct (scan_branches rest 0 (mk st1)) as [[s1' p1'] e'] eqn:E2.
+      inversion Hscan; subst.
+      simpl in Hwf. apply andb_true_iff in Hwf. destruct Hwf as [Hwf Hrest].
+      specialize (IH Hrest _ _ _ eq_refl).
+      destruct err as [e|]; [assumption|].
+      destruct IH as [(-> & -> & ->) | (body' & c & Hb & Hcb & Hd)].
+      + left. simpl. auto.
+      + right. exists body', c. simpl. auto.
+  Qed.
+
+  (* ------------------------------------------------------------------ *)
+  (* The theorems                                                        *)
+  (* ------------------------------------------------------------------ *)
 
   Theorem run_outline_sound : forall o, wf_instr o = true -> forall n w s r,
     run_outline n o w = Some (s, r) ->
     exists out, exec_instr true o (w, []) (iw _ _ s, icalls _ _ s) out /\ chain_result out = r.
+  Proof.
+    intros o Hwf n w s r H. destruct (wf_create _ Hwf) as [sp Hsp].
+    unfold OutlineModel.run_outline in H. rewrite Hsp in H.
+    pose proof (run_chain_drive n o sp (mk_ist w [] [])) as Hrc.
+    destruct (run_chain n o sp (mk_ist w [] [])) as [[[s' sp'] r']|]; [|discriminate].
+    inversion H; subst. destruct Hrc as (k & out & Hd & Hr).
+    exists out. split; [|exact Hr].
+    exact (proj1 (sound_main n) o true _ _ _ _ sp Hwf Hsp Hd).
+  Qed.
 
   Theorem run_outline_complete : forall o, wf_instr o = true -> forall w w' tr out,
     exec_instr true o (w, []) (w', tr) out ->
     exists n s, run_outline n o w = Some (s, chain_result out) /\ iw _ _ s = w' /\ icalls _ _ s = tr.
-  *)
+  Proof.
+    intros o Hwf w w' tr out Hx. destruct (wf_create _ Hwf) as [sp Hsp].
+    destruct (proj1 complete_main _ _ _ _ _ Hx Hwf sp Hsp) as (n & k & Hd).
+    pose proof (run_chain_drive n o sp (mk_ist w [] [])) as Hrc.
+    exists n. unfold OutlineModel.run_outline. rewrite Hsp.
+    destruct (run_chain n o sp (mk_ist w [] [])) as [[[s' sp'] r']|].
+    - destruct Hrc as (k' & out' & Hd' & Hr).
+      change (st_of (mk_ist w [] [])) with (w, @nil call) in Hd'.
+      rewrite Hd in Hd'. inversion Hd'; subst.
+      exists s'. repeat split; reflexivity.
+    - change (st_of (mk_ist w [] [])) with (w, @nil call) in Hrc.
+      rewrite Hd in Hrc. discriminate.
+  Qed.
 End Proofs.
+
+Print Assumptions exec_deterministic.
+Print Assumptions run_outline_sound.
+Print Assumptions run_outline_complete.
